@@ -554,6 +554,16 @@ func (t *trzszTransfer) getNewTimeout() <-chan time.Time {
 	return nil
 }
 
+// checkBinarySize rejects a binary block size that no sender can produce: a block is an escaped
+// chunk of at most the negotiated max buffer size ( which is at most 1G ).
+func (t *trzszTransfer) checkBinarySize(size int64) error {
+	maxSize := 2 * minInt64(t.transferConfig.MaxBufSize, 1024*1024*1024)
+	if size < 0 || size > maxSize {
+		return simpleTrzszError("Invalid binary data size: %d", size)
+	}
+	return nil
+}
+
 func (t *trzszTransfer) recvData() ([]byte, error) {
 	timeout := t.getNewTimeout()
 	if !t.transferConfig.Binary {
@@ -561,6 +571,9 @@ func (t *trzszTransfer) recvData() ([]byte, error) {
 	}
 	size, err := t.recvInteger("DATA", false, timeout)
 	if err != nil {
+		return nil, err
+	}
+	if err := t.checkBinarySize(size); err != nil {
 		return nil, err
 	}
 	data, err := t.buffer.readBinary(int(size), timeout)
